@@ -167,10 +167,32 @@ def _returns_mapped(fn, rb):
     return False
 
 
+_FX = [None]
+
+
+def _expand(refs, enc, depth=0):
+    """an arm that delegates to another function of the module (a helper extracted from it) stands for that function's
+    own sequence of reads / writes: replace the reference by the helper's calls in block order"""
+    fx = _FX[0]
+    out = []
+    for r in refs:
+        known = re.search(r'retain::(encode_string|encode_value|decode_value|decode_value_at)$|RetainReader.*::read_\w+$|ValueTag::', r) is not None
+        rec = None
+        if fx is not None and not known and r.startswith(R) and depth < 2:
+            rec = fx.fns.get(r) or getattr(fx, 'dropped_helpers', {}).get(r)
+        if rec is None or rec.get('kind') == 'Closure':
+            out.append(r)
+            continue
+        f2 = F(rec)
+        seq = [f2.call_name(b) for b in sorted(f2.g) if f2.term(b)['k'] == 'call' and f2.call_name(b)]
+        out.extend(_expand(seq, enc, depth + 1))
+    return out
+
+
 def _widths(refs, enc):
     """sequence of primitive widths / helper marks in an arm body, in source order"""
     out = []
-    for r in refs:
+    for r in _expand(refs, enc):
         m = re.search(r'<impl (\w+)>::to_le_bytes$', r)
         if enc and m:
             out.append(SIZES.get(m.group(1), '?'))
@@ -198,6 +220,7 @@ def _widths(refs, enc):
 
 def _r2(ctx):
     fx = ctx.fx
+    _FX[0] = fx
     r2 = ctx.rule('C10.R2', 'encoder and decoder agree per value variant on tag and primitive width sequence', floor=28, floor_what='value variants')
     enc_id = R + 'encode_value'
     dec_ids = [k for k in fx.fns if re.match(r'trust_runtime::retain::decode_value(_at)?$', k)]
